@@ -1,7 +1,7 @@
 SPECIFICATION Spec
 CONSTANTS
   MaxLen = 3
-  Kinds <- AllKinds
+  Kinds <- TwoKinds
   Outcomes <- AllSix
   Tags <- BothTags
   MayToggle = TRUE
